@@ -168,6 +168,20 @@ func runC15(r *R) {
 	rows := 1 + w.Draw(5)
 	inst := 1 + w.Draw(4)
 	passes := 1 + w.Draw(2)
+	// one run in thirty: weights whose reduced ring is long (hundreds to thousands of invocations), one whole ring of
+	// minimal scenarios (the auth step only), to see the proportions of very unequal weights
+	longRing := w.Draw(30) == 0
+	if longRing {
+		nsc = 2
+		scs = scs[:0]
+		big := []int{1, 3, 7, 200, 600, 1000, 1001}
+		for i := 0; i < nsc; i++ {
+			sc := c15Scenario{Name: fmt.Sprintf("s%d", i), Weight: big[w.Draw(len(big))], Lines: []string{fmt.Sprintf("s%d_auth", i)}, Steps: []c15Step{{Kind: "auth"}}}
+			scs = append(scs, sc)
+		}
+		passes, inst = 1, 2+w.Draw(3)
+		r.Note("long-weight-ring")
+	}
 	g := 0
 	for _, sc := range scs {
 		g = gcd(g, sc.Weight)
